@@ -302,3 +302,43 @@ def rule_store_load(ctx, r, which=("tracked jobs", "spec hashes")):
                 f"{label}: with {disk} saved by the previous invocation the store starts with {got} (and with {got_none} when no file exists): "
                 + ("jobs accepted earlier are forgotten and submitted again" if label == "tracked jobs" else "every target looks never recorded, so all targets are stale on every run"),
                 ci.where)
+
+
+def rule_table_ownership(ctx, r, which=("tracked jobs", "spec hashes")):
+    """Who may change the two state tables.  tracked jobs: written by TrackingBackend.submit (the id of an accepted job) and by the loader - nothing ever REMOVES an
+    entry or replaces the table (a job the scheduler accepted stays on record whatever part of the workflow the current command looks at).  spec hashes: written by
+    update(), erased by invalidate() (which only `gwf clean` calls), loaded at start-up - nothing else touches the table."""
+    import ast
+    from ..index import loc
+    idx, res = ctx.index, ctx.resolver
+    base = "gwf.backends.base:TrackingBackend"
+    core = "gwf.core:FileSpecHashes"
+    n_tr = n_hs = 0
+    for f in idx.functions.values():
+        from ..index import walk_no_nested
+        for n in walk_no_nested(f.node):
+            for e in res.node_effects(n, f):
+                if e.kind != "STATE_MUT":
+                    continue
+                if e.detail == "tracked" and "tracked jobs" in which:
+                    n_tr += 1
+                    owner = f.cls is not None and f.cls.name == "TrackingBackend" and (f.name in ("submit", "__init__", "__attrs_post_init__") or any(
+                        (d or "").endswith(".default") for d in f.decorator_names()) or res.owned_by(f, [f"{base}.submit"]))
+                    # within an owner: a store `table[name] = id` is the one legal write; pop/clear/del/popitem remove entries
+                    removes = isinstance(n, ast.Delete) or (isinstance(n, ast.Call) and isinstance(n.func, ast.Attribute) and n.func.attr in ("pop", "clear", "popitem", "__delitem__"))
+                    r.check(owner and not removes, f"{f.module.relpath}::{f.qual}::tracked-table", "the tracked-jobs table is written by submit() / the loader only, entries are never removed",
+                            f"{f.qual} {'removes entries from' if removes else 'writes'} the tracked-jobs table: a job the scheduler accepted is forgotten for targets this command did not "
+                            "look at (a partial run, another workflow file in the same directory, a target that is commented out for a while) - its state is no longer shown, "
+                            "`gwf cancel` cannot reach it and the next run submits the target a second time", e.where)
+                if e.detail == "hashes" and "spec hashes" in which:
+                    n_hs += 1
+                    own = f.cls is not None and f.cls.name == "FileSpecHashes" and (f.name in ("update", "invalidate", "__attrs_post_init__", "__init__") or any(
+                        (d or "").endswith(".default") for d in f.decorator_names()) or res.owned_by(
+                        f, [f"{core}.update", f"{core}.invalidate", f"{core}.__attrs_post_init__", f"{core}.__init__"]))
+                    r.check(own, f"{f.module.relpath}::{f.qual}::hashes-table", "the spec-hash table is written by update() / invalidate() / the loader only",
+                            f"{f.qual} changes the spec-hash table: records are set by an accepted submission or touch and erased by clean only - a record dropped for a target "
+                            "this command did not look at (a partial run, another workflow file) makes that target stale although nothing changed", e.where)
+    if "tracked jobs" in which:
+        r.check(n_tr >= 1, "src/gwf::tracked-table-writers", f"{n_tr} write site(s) of the tracked-jobs table, all in its owners", "no write site of the tracked-jobs table found", "src/gwf/backends/base.py:1")
+    if "spec hashes" in which:
+        r.check(n_hs >= 2, "src/gwf::hashes-table-writers", f"{n_hs} write site(s) of the spec-hash table, all in its owners", "the write sites of the spec-hash table were not found", "src/gwf/core.py:1")
